@@ -414,6 +414,29 @@ def run(ctx):
            "Bus::write is driven only by the CPU's write stage; nothing outside the machine reaches the address decoder's write side",
            p.need_type(BUS)["file"], "callers of Bus::write: %s" % wcallers, "who-may-call over the resolved call graph")
 
+    # "set from outside" by name: the interactive command `FC = v` ... `FF = v` names the register it sets - in the command
+    # grammar every register keyword is paired with the InputRegister of the same name
+    from .. import nomtree
+    Bd_ = nomtree.Builder(p)
+    root_ = Bd_.build("B::tui::input::parser::cmd_set_input_reg")
+    seen_kw = {}
+    bad_kw = []
+    for ts_, v_ in nomtree.expand(p, root_):
+        kws = [t_[1].lower() for t_ in ts_ if t_[0] == "lit" and t_[1].lower() in ("fc", "fd", "fe", "ff")]
+        shown = nomtree.show_value(v_)
+        if len(kws) != 1 or not shown.startswith("SetInputReg("):
+            bad_kw.append("%s => %s" % (nomtree.show_tokens(ts_), shown))
+            continue
+        var_ = shown[len("SetInputReg("):].split(",")[0].strip().lower()
+        seen_kw.setdefault(kws[0], set()).add(var_)
+    for kw_ in ("fc", "fd", "fe", "ff"):
+        if seen_kw.get(kw_) != {kw_}:
+            bad_kw.append("keyword %s sets %s" % (kw_.upper(), sorted(seen_kw.get(kw_, []))))
+    chk.ob("outside/command-register-names", not bad_kw,
+           "the command `FC|FD|FE|FF = v` sets the input register it names", "emulator-2a/src/tui/input/parser.rs cmd_set_input_reg",
+           "; ".join(bad_kw[:3]) or "4 keywords, %d alternatives" % sum(1 for _ in nomtree.expand(p, root_)),
+           "combinator tree of cmd_set_input_reg reconstructed from MIR, keyword vs. value per alternative")
+
     # ---- single writers -----------------------------------------------------------
     expect_writers = {
         "input_reg": {BUS + "::input_fc", BUS + "::input_fd", BUS + "::input_fe", BUS + "::input_ff",
